@@ -236,18 +236,19 @@ func raceSolvers(names []string, file string, sec int) (string, string, float64,
 }
 
 // relaxQuery drops every assertion that contains a quantifier, except the last one (the goal).
+// Assertions may span several lines (prelude modules): the query is split into top-level forms first.
 func relaxQuery(q string) (string, int) {
-	lines := strings.Split(q, "\n")
+	forms := topLevelForms(q)
 	lastAssert := -1
-	for i, l := range lines {
-		if strings.HasPrefix(l, "(assert ") {
+	for i, l := range forms {
+		if strings.HasPrefix(l, "(assert") {
 			lastAssert = i
 		}
 	}
 	dropped := 0
 	var b strings.Builder
-	for i, l := range lines {
-		if i != lastAssert && strings.HasPrefix(l, "(assert ") && (strings.Contains(l, "(forall ") || strings.Contains(l, "(exists ")) {
+	for i, l := range forms {
+		if i != lastAssert && strings.HasPrefix(l, "(assert") && (strings.Contains(l, "(forall ") || strings.Contains(l, "(exists ")) {
 			dropped++
 			continue
 		}
@@ -255,6 +256,64 @@ func relaxQuery(q string) (string, int) {
 		b.WriteByte('\n')
 	}
 	return b.String(), dropped
+}
+
+// topLevelForms splits SMT-LIB text into its top-level parenthesised forms; comments outside forms are kept as
+// their own entries, comments inside a form are removed.
+func topLevelForms(q string) []string {
+	var out []string
+	var cur strings.Builder
+	depth := 0
+	for _, line := range strings.Split(q, "\n") {
+		inStr, inBar := false, false
+		start := cur.Len()
+		for i := 0; i < len(line); i++ {
+			c := line[i]
+			if inStr {
+				if c == '"' {
+					inStr = false
+				}
+				cur.WriteByte(c)
+				continue
+			}
+			if inBar {
+				if c == '|' {
+					inBar = false
+				}
+				cur.WriteByte(c)
+				continue
+			}
+			if c == ';' {
+				if depth == 0 && cur.Len() == start {
+					out = append(out, line)
+				}
+				break
+			}
+			switch c {
+			case '"':
+				inStr = true
+			case '|':
+				inBar = true
+			case '(':
+				depth++
+			case ')':
+				depth--
+			}
+			cur.WriteByte(c)
+		}
+		if depth == 0 {
+			if t := strings.TrimSpace(cur.String()); t != "" {
+				out = append(out, t)
+			}
+			cur.Reset()
+		} else {
+			cur.WriteByte(' ')
+		}
+	}
+	if t := strings.TrimSpace(cur.String()); t != "" {
+		out = append(out, t)
+	}
+	return out
 }
 
 func solveAll(items []*Result, opt SolveOpts) {
